@@ -5,7 +5,8 @@ From Gen Require Import Tables.
 From Pipe Require Import Model Base Terminal PropsC12.
 
 Definition gen_pfacts : pfacts := {| f_pending_recheck := fact_pending_arm_rechecks_closed; f_default_depth := fact_pipe_backpressure_count;
-     f_poll_next_replaces_waker := fact_poll_next_stores_waker |}.
+     f_poll_next_replaces_waker := fact_poll_next_stores_waker;
+     f_drop_wakes_before_dispose := fact_stream_drop_wakes_before_dispose |}.
 
 Lemma cl_poll_next_replaces_waker : gen_pfacts.(f_poll_next_replaces_waker) = true. Proof. reflexivity. Qed.
 Lemma cl_default_depth_positive : 1 <= gen_pfacts.(f_default_depth). Proof. cbv. lia. Qed.
@@ -21,17 +22,17 @@ Lemma cl_pipe_core_weak : fact_pipe_core_weak = true. Proof. reflexivity. Qed.
 Lemma cl_pipe_waker_one_shot : fact_pipe_waker_one_shot = true. Proof. reflexivity. Qed.
 Lemma cl_pipe_context_weak_upgrade : fact_pipe_context_weak_upgrade = true. Proof. reflexivity. Qed.
 
-Theorem C12_terminal_complete_now : forall (f : nat -> nat) inputs ext tr s,
-    Forall (fun a => a <> ACSetDepth 0) tr -> run gen_pfacts f (init gen_pfacts inputs ext) tr = Some s ->
+Theorem C12_terminal_complete_now : forall (f : nat -> nat) inputs sl ext tr s,
+    Forall (fun a => a <> ACSetDepth 0) tr -> run gen_pfacts f (init_slow gen_pfacts inputs sl ext) tr = Some s ->
     terminal gen_pfacts f s -> dropped s = false ->
     s.(delivered) = f <$> inputs /\ s.(got_end) = true /\ s.(cst) = CDone.
-Proof. intros f inputs ext tr s. exact (C12_terminal_complete gen_pfacts f cl_poll_next_replaces_waker inputs ext tr s cl_default_depth_positive). Qed.
+Proof. intros f inputs sl ext tr s. exact (C12_terminal_complete gen_pfacts f cl_poll_next_replaces_waker inputs sl ext tr s cl_default_depth_positive). Qed.
 Print Assumptions C12_terminal_complete_now.
 
 (* C12.2 on the code as it is now: a consumer that may poll at any time, each time with a fresh waker, is woken through the
    waker of its most recent Pending poll *)
-Theorem C12_consumer_always_woken_now : forall (f : nat -> nat) inputs ext tr s,
-    run gen_pfacts f (init gen_pfacts inputs ext) tr = Some s ->
+Theorem C12_consumer_always_woken_now : forall (f : nat -> nat) inputs sl ext tr s,
+    run gen_pfacts f (init_slow gen_pfacts inputs sl ext) tr = Some s ->
     (s.(cst) = CPend \/ s.(cst) = CRun true) -> (s.(pending) <> [] \/ s.(closed) = true) ->
     s.(notify) = None /\ (s.(cwoken) = true \/ cons_wake_inflight s = true).
 Proof. intros f. exact (C12_consumer_always_woken gen_pfacts f cl_poll_next_replaces_waker). Qed.
